@@ -308,6 +308,9 @@ class InstAnalysis:
                 continue
             a = args[j]
             aty = tys[j]
+            if not path and aty.get('closure'):
+                # the closure value itself (moved on, called): what it captures is reached through `#c` paths
+                continue
             if path and isinstance(path[0], str) and path[0].startswith('#c'):
                 # a capture of the closure passed as this argument
                 kk = int(path[0][2:])
